@@ -45,6 +45,41 @@ def cases(i, xml, cfg):
     return ci, cm
 
 
+def _differs(lib, xml, cfg):
+    ci, cm = cases(0, xml, cfg)
+    a = lib.run_impl([ci], timeout_ms=10000, shards=1).get(ci.id); b = lib.run_model([cm], shards=1).get(cm.id)
+    if not a or not b or b[0] in ('SKIP', 'OUTOFFUEL', 'TIMEOUT', 'STACKOVERFLOW') or (b[0] == 'ERR' and b[1] == 'OtherError') or a[0] == 'TIMEOUT':
+        return False
+    return not (a[0] == b[0] and (a[1] == b[1] if a[0] == 'OK' else (b[1] == 'MultiError' or a[1] == b[1])))
+
+
+def reduce(lib, xml, cfg, budget_s=45):
+    """greedy reduction of a document on which model and implementation differ: drop empty elements, attributes, unwrap containers"""
+    import time
+    t0 = time.time(); changed = True
+    while changed and time.time() - t0 < budget_s:
+        changed = False
+        for pat in (r'<[a-zA-Z]+(?: [^<>]*)?/>', r' [a-zA-Z_:-]+="[^"]*"'):
+            for m in list(re.finditer(pat, xml)):
+                if time.time() - t0 > budget_s:
+                    return xml
+                cand = xml[:m.start()] + xml[m.end():]
+                if _differs(lib, cand, cfg):
+                    xml = cand; changed = True; break
+            if changed:
+                break
+        if changed:
+            continue
+        for m in list(re.finditer(r'<([a-zA-Z]+)(?: [^<>]*)?>', xml)):
+            name = m.group(1); end = xml.find('</%s>' % name, m.end())
+            if end < 0 or name == 'svg' or time.time() - t0 > budget_s:
+                continue
+            cand = xml[:m.start()] + xml[m.end():end] + xml[end + len(name) + 3:]
+            if _differs(lib, cand, cfg):
+                xml = cand; changed = True; break
+    return xml
+
+
 def compare(lib, items, stats=None, shards=12):
     """items: iterable of (xml, cfg). Yields correspondence violations; fills stats['doc_model_*']."""
     pairs = [cases(i, x, c) for i, (x, c) in enumerate(items) if applicable(x, c or {})]
@@ -53,7 +88,8 @@ def compare(lib, items, stats=None, shards=12):
     im = lib.run_impl([p[0] for p in pairs], timeout_ms=10000, shards=shards)
     mo = lib.run_model([p[1] for p in pairs], shards=shards)
     same = skipped = 0
-    for ci, cm in pairs:
+    first = True
+    for ci, cm in sorted(pairs, key=lambda p: len(p[0].meta['xml'])):
         a, b = im.get(ci.id), mo.get(cm.id)
         if not b or b[0] in ('SKIP', 'OUTOFFUEL', 'TIMEOUT', 'STACKOVERFLOW') or (b[0] == 'ERR' and b[1] == 'OtherError') or (a and a[0] == 'TIMEOUT'):
             skipped += 1       # construct outside the composed model (bearing path, <config>, <defaults>) or its fuel
@@ -64,9 +100,19 @@ def compare(lib, items, stats=None, shards=12):
         def show(r):
             if not r: return 'nothing'
             return ('OK ' + repr(unhx(r[1])[:600])) if r[0] == 'OK' else ' '.join(r[:3])
-        yield {'kind': 'correspondence', 'what': 'whole-document model and implementation disagree on %r (config %s): impl %s; model %s'
-               % (ci.meta['xml'][:500], ci.meta['cfg'], show(a), show(b)),
-               'case': {'xml': ci.meta['xml'], 'cfg': ci.meta['cfg']}, 'observed': show(a), 'expected': show(b)}
+        v = {'kind': 'correspondence', 'what': 'whole-document model and implementation disagree on %r (config %s): impl %s; model %s'
+             % (ci.meta['xml'][:500], ci.meta['cfg'], show(a), show(b)),
+             'case': {'xml': ci.meta['xml'], 'cfg': ci.meta['cfg']}, 'observed': show(a), 'expected': show(b)}
+        if first and isinstance(ci.meta['xml'], str):
+            first = False
+            try:
+                small = reduce(lib, ci.meta['xml'], ci.meta['cfg'])
+                if small != ci.meta['xml']:
+                    v['case']['reduced'] = small
+                    v['what'] += '; reduced to %r' % small[:400]
+            except Exception:
+                pass
+        yield v
     if stats is not None:
         stats['traces_validated_against_impl'] += same
         d = stats['distribution']
